@@ -39,12 +39,16 @@ def main():
     meta = {"id": sid, "property": prop, "needs_to_manifest": needs, "confirmed": {}, "checks": {}, "ran": []}
     try:
         demos = sorted(glob.glob(os.path.join(src, "*_test.go")))
+        prog = "--program" in a  # the demonstration is a standalone program: copy *.go into <dest> and `go run` it
+        if prog:
+            demos = sorted(glob.glob(os.path.join(src, "*.go")))
         if not demos:
             print("no demo *_test.go in", src)
             return 2
         destdir = os.path.join(wt, dest)
 
         def put_demo():
+            os.makedirs(destdir, exist_ok=True)
             for d in demos:
                 shutil.copy(d, destdir)
 
@@ -55,8 +59,9 @@ def main():
                 except FileNotFoundError:
                     pass
 
+        demo_cmd = ("go run ./%s" if prog else "go test -vet=off -count=1 ./%s/") % dest
         put_demo()
-        rc, out = sh("go test -vet=off -count=1 ./%s/" % dest, wt)
+        rc, out = sh(demo_cmd, wt)
         meta["confirmed"]["clean_demo_passes"] = rc == 0
         meta["ran"].append("clean tree + demo: go test -vet=off -count=1 ./%s/ -> exit %d" % (dest, rc))
         if rc:
@@ -74,7 +79,7 @@ def main():
         if not suite_ok:
             print("SUITE FAILS WITH PATCH:\n" + out1[-1500:] + out2[-2500:])
         put_demo()
-        rc, out = sh("go test -vet=off -count=1 ./%s/" % dest, wt, timeout=900)
+        rc, out = sh(demo_cmd, wt, timeout=900)
         meta["confirmed"]["patched_demo_fails"] = rc != 0
         meta["ran"].append("patched tree + demo: go test -vet=off -count=1 ./%s/ -> exit %d" % (dest, rc))
         if rc == 0:
